@@ -83,18 +83,20 @@ static double chisq_pvalue(int n, double x2)
      *         upper incomplete gamma function.
      */
     } else if ((n & 1) == 0) {
-	double c = exp(-x);
-	double f = 1.0;
+	const double ln_x = log(x);
 	double s = 0.0;
 
+	/*
+	 * Sum e^-x x^i / i! with each term formed in the log domain:
+	 * for a large chi-square value e^-x underflows to zero while
+	 * x^i / i! overflows, and their product is NaN, which compares
+	 * false against every significance limit.
+	 */
 	n >>= 1;
 	for (int i = 0; i < n; ++i) {
-	    if (i != 0) {
-		f *= x / (double)i;
-	    }
-	    s += f;
+	    s += exp(-x + (double)i * ln_x - lgamma((double)i + 1.0));
 	}
-	result = c * s;
+	result = s;
 
     /*
      * For n odd,
@@ -104,19 +106,21 @@ static double chisq_pvalue(int n, double x2)
      *     with the same conditions as above
      */
     } else {
+	const double ln_x = log(x);
 	double c1 = erfc(sqrt(x));
-	double c2 = exp(-x) / sqrt(M_PI * x);
-	double f = 1.0;
 	double s = 0.0;
 
 	n >>= 1;
 	for (int i = 1; i <= n; ++i) {
-	    f *= x / (i - 0.5);
-	    s += f;
+	    s += exp(-x + ((double)i - 0.5) * ln_x -
+		    lgamma((double)i + 0.5));
 	}
-	result = c1 + c2 * s;
+	result = c1 + s;
     }
 
+    if (result > 1.0) {		/* rounding in the sum */
+	result = 1.0;
+    }
     return result;
 }
 
